@@ -1,5 +1,6 @@
 import SymVerif.DrvCommon
 import SymVerif.Model.Queries
+import SymVerif.Model.Queries2
 /-! Driver for C34: `q <query> (A <statement>…) <expr>` → `T` / `F` / `I` / `E:Runtime` / `SKIP:…`.
 Statements and the expression are canonical dumps (harness/sexp.h).
 
@@ -46,7 +47,11 @@ def handle (line : String) : String :=
       | .ok A =>
         match knownDefect q A e with
         | some s => s
-        | none => showRes (query q A e)
+        | none => if q == "even" || q == "odd" then showRes (queryParity q A e) else showRes (query q A e)
+    | _, _ => "bad-op"
+  | some [.atom "poly", .list (.atom "V" :: vars), e] =>
+    match Expr.ofSExpList vars, Expr.ofSExp e with
+    | some vars, some e => if isPolynomial vars e then "T" else "F"
     | _, _ => "bad-op"
   | _ => "bad-op"
 
